@@ -88,6 +88,16 @@ CLAIMS = {
          "replayed by compile probes; C14_if_partial (the 'whenever all of them can' direction) and C14_record_struct_shape proved. The check "
          "prints KNOWN-FINDING for K1 and raises VIOLATION for any other C14 failure.", "4 C14", P_NOTE,
          "Lean 4 theorems (partial + refutation witness) + rustc auto-trait probes; known finding"),
+ "C15": ("Model of the generated Serialize/visitor at field-value level with the format as a parameter (length hint or not): C15_roundtrip (both "
+         "format kinds, any number of fields), C15_too_few, C15_bad_element, C15_too_many — every rejection drops exactly the values decoded so "
+         "far. Tie: generator IR (channel L/G) + channel X: serde_json and bincode round trips and truncated / corrupted / over-long inputs on "
+         "compiled modules, compared with this model (error class, drop multiset, access multiset).", "4 C15", X_NOTE + " serde, serde_json, bincode are modelled by the SeqIn parameter.",
+         "Lean 4 theorems over a value-level serde model + correspondence on compiled generated code"),
+ "C16": ("C16_clone_equal, C16_panic_safe (a panic in any field's clone drops exactly the clones built so far), C16_clone_from (target = clone "
+         "of source, each previous droppable value dropped once) over the value-level model with the field types' Clone as a parameter. Tie: "
+         "generator IR + channel X: clone / clone_from / clone with an injected panic at a random field on compiled modules, then mutation and "
+         "drop of either side, compared with the model and an independent ledger.", "4 C16", X_NOTE,
+         "Lean 4 theorems over a value-level clone model + correspondence on compiled generated code"),
 }
 PENDING = "check not built yet (build phase in progress); planned per DESIGN.md section 4"
 
